@@ -234,6 +234,21 @@ def record(payload):
                 _verif.set_tracer(None)
             # C16: calibration and queries never change the model (BN / MN / factor graph / junction tree) the engine was built on
             events.append({"ev": "frame", "api": "BeliefPropagation", "same": model_snapshot(model) == snap_model})
+            # ... nor do the elimination-order diagnostics of the elimination engine built on the same model
+            try:
+                if kind == "fg":
+                    raise LookupError("the elimination engine is not defined on factor graphs")
+                ve2 = VariableElimination(model)
+                ve2._initialize_structures()
+                order = list(ve2.variables)          # (the engine's own variable list, whatever the model kind)
+                rng.shuffle(order)
+                ve2.induced_graph(order)
+                ve2.induced_width(order)
+                events.append({"ev": "frame", "api": "VariableElimination.induced_graph", "same": model_snapshot(model) == snap_model})
+            except LookupError:
+                pass
+            except Exception as ex:  # noqa
+                events.append({"ev": "raised", "api": "VariableElimination.induced_graph", "exc": repr(ex)[:200]})
             out.append({"tid": tid, "seed": seed, "hashseed": hs, "mode": payload["mode"], "inst": inst, "events": events})
             tid += 1
     return {"traces": out}
